@@ -167,6 +167,14 @@ class Model:
         return Term("pairing", (hp(Q), hp(P), fe), "field")
 
     def s_hash_to_G2(self, it, f, args, kwargs, node):
+        if len(args) != 3 or kwargs:
+            # not the three-argument function of the specification: walk the body instead of summarising it
+            it.emit("hash_to_G2_nonstandard_call", nargs=len(args), kw=sorted(kwargs), node=node)
+            saved = it.summaries.pop(f.qualname)
+            try:
+                return it.call_func(f, args, kwargs, node)
+            finally:
+                it.summaries[f.qualname] = saved
         msg, dst, hfn = args
         if self.mode == "D":
             # walk the real body once so that every raise site inside it is met
